@@ -169,14 +169,16 @@ type Runner struct {
 	everDel   bool
 
 	// optional behaviours
-	Transcript  *[]string                       // C14: results of every call
-	Poison      *PoisonBufs                     // C15: shared caller buffers
-	AfterStep   []func(r *Runner, op *Op) *Fail // extra oracles (C13, C17 …)
-	NoDump      bool                            // skip the per-step dump (lock-step followers)
-	sinceFull   int
-	lastIter    *IterFeatures
-	lastFileNum int
-	closed      bool
+	Transcript    *[]string                       // C14: results of every call
+	Poison        *PoisonBufs                     // C15: shared caller buffers
+	AfterStep     []func(r *Runner, op *Op) *Fail // extra oracles (C13, C17 …)
+	NoDump        bool                            // skip the per-step dump (lock-step followers)
+	OnMergeResult func(err error) *Fail           // judge the return value of Merge (C06, C17)
+	LastMergeErr  error
+	sinceFull     int
+	lastIter      *IterFeatures
+	lastFileNum   int
+	closed        bool
 }
 
 // NewRunner opens a fresh database under a new scratch directory.
@@ -1017,6 +1019,12 @@ func (r *Runner) execMerge(op *Op) (touched [][]byte, global bool, fail *Fail) {
 		r.F.dirtySince["merge"] = true
 	} else {
 		r.Stats.Label("merge-returned-" + ErrName(err))
+	}
+	r.LastMergeErr = err
+	if r.OnMergeResult != nil {
+		if f := r.OnMergeResult(err); f != nil {
+			return touched, true, f
+		}
 	}
 	return touched, true, nil
 }
